@@ -8,6 +8,7 @@ Import ListNotations.
 Import RecordSetNotations.
 
 Definition pre_done (c : cpc) : nat := match c with CCas | CRdClosed => 1 | _ => 0 end.
+Definition at_cas (c : cpc) : nat := match c with CCas => 1 | _ => 0 end.
 Definition pre_notify (c : cpc) : nat := match c with CCas | CRdClosed | CDoneClosed => 1 | _ => 0 end.
 Definition pre_fin (c : cpc) : nat :=
   match c with CCas | CRdClosed | CDoneClosed | CNotified => 1 | _ => 0 end.
@@ -15,6 +16,7 @@ Definition postw (f : fpc) : nat := match f with FWait => 0 | _ => 1 end.
 Definition postcw (f : fpc) : nat := match f with FWait | FWaited => 0 | _ => 1 end.
 
 Definition cw_done (cl : closer) := pre_done (cp cl).
+Definition cw_atcas (cl : closer) := at_cas (cp cl).
 Definition cw_notify (cl : closer) := pre_notify (cp cl).
 Definition cw_fin (cl : closer) := pre_fin (cp cl).
 (* this Close call is inside or past finally()'s wg.Wait / CloseWrite *)
@@ -50,6 +52,7 @@ Record InvA (s : st) : Prop := {
   a_cw : 1 <= sumc cw_postcw (closers s) + sumf postcw (fins s) -> fin s = true;
   a_gf : sumc cw_badfin (closers s) = 0;
   a_notif : length (notified s) <= attempts s;
+  a_rdc : sumc cw_atcas (closers s) + rcl at_cas (rp s) + b2n (rd_closed s) = ncas s;
   a_rf : match rp s with RForce (CFin _) _ | RForce (CRet _) _ => False | _ => True end
 }.
 
@@ -60,7 +63,7 @@ Ltac brw :=
   end.
 
 Ltac finA :=
-  unfold cw_done, cw_notify, cw_fin, cw_postw, cw_postcw, cw_infin, cw_badfin, b2n in *;
+  unfold cw_done, cw_atcas, cw_notify, cw_fin, cw_postw, cw_postcw, cw_infin, cw_badfin, b2n in *;
   cbn in *; brw; sums; sumfs; prep;
   repeat match goal with
   | H : nth_error (fins ?s) ?k = Some _ |- _ =>
@@ -87,7 +90,7 @@ Ltac finA :=
 Lemma step_invA s c s' : step repaired s c = Some s' -> InvA s -> InvA s'.
 Proof.
   unfold step. destruct (panic s) eqn:Hp; [discriminate|].
-  intros H [I1 I2 I3 I4 I5 I6 I7 I8 I9 I10 I11 I12 I13 I14 I15].
+  intros H [I1 I2 I3 I4 I5 I6 I7 I8 I9 I10 I11 I12 I13 I14 I15 I16].
   destruct c.
   - (unfold send_step in H; dmatch H; inv H; constructor; cbn; auto). all: finA.
   - (unfold writer_step in H; dmatch H; inv H; constructor; cbn; auto). all: finA.
